@@ -759,7 +759,11 @@ impl Duration {
                 }
                 // c. Let internalDuration be ToInternalDurationRecordWith24HourDays(duration).
                 // d. Let total be TotalTimeDuration(internalDuration.[[Time]], unit).
-                let total = self.time.to_normalized().total(unit)?;
+                let internal = self
+                    .time
+                    .to_normalized()
+                    .add_days(self.days().as_integer_if_integral()?)?;
+                let total = internal.total(unit)?;
                 Ok(total)
             }
         }
